@@ -78,6 +78,9 @@ struct Lock<'a> {
     ops_done: usize,
     /// a write_all / write! failed: from here on the two inner writers may legitimately differ
     failed_all: bool,
+    /// byte comparison every `stride`-th successful call (long-lived histories)
+    stride: usize,
+    since_check: usize,
 }
 
 impl Lock<'_> {
@@ -191,7 +194,12 @@ impl Lock<'_> {
             // compared above, bytes are only compared while the history is still on its feet
             let failed_all = matches!(ra, OpResult::Err(_)) && !matches!(applied_kind(&op, buf), Applied::Write | Applied::Vectored | Applied::Flush);
             self.failed_all |= failed_all;
-            if let (Some((ha, hb)), false) = (obs, failed_all) {
+            self.since_check += 1;
+            let due = self.since_check >= self.stride || !matches!(ra, OpResult::Count(_) | OpResult::Done);
+            if due {
+                self.since_check = 0;
+            }
+            if let (Some((ha, hb)), false, true) = (obs, failed_all, due) {
                 let sa = ha.st();
                 let sb = hb.st();
                 if sa.accepted != sb.accepted {
@@ -318,6 +326,11 @@ impl Lock<'_> {
                 }
             }
             self.c += consumed;
+            self.since_check += 1;
+            if self.since_check < self.stride {
+                continue;
+            }
+            self.since_check = 0;
             if let Some((ha, hb)) = obs {
                 let sa = ha.st();
                 let sb = hb.st();
@@ -403,7 +416,7 @@ pub fn execute(t: &Trace, stats: &mut Stats, record: bool) -> Outcome {
     } else {
         stats.probe("config_faulty");
     }
-    let mut lk = Lock { t, record, log: Vec::new(), hash: Fnv::default(), c: 0, stats, ops_done: 0, failed_all: false };
+    let mut lk = Lock { t, record, log: Vec::new(), hash: Fnv::default(), c: 0, stats, ops_done: 0, failed_all: false, stride: check_stride(t.ops.len()), since_check: 0 };
     lk.hash.str(&t.surface);
 
     let wa = SimWriter::new(t.faults.clone(), record);
